@@ -38,6 +38,11 @@ def explore(ctx):
             kinds["lambda"] += f.count("(lambda")
             kinds["tick"] += f.count("(tick ")
         cases.append(make_case(forms))
+    # closures created in different rounds of (mutually) tail-recursive loops: every call binds fresh locations
+    for k in range(40 if ctx.quick else 1500):
+        forms = gen.loop_closure_program(ctx.rng)
+        kinds["lambda"] += sum(f.count("(lambda") for f in forms)
+        cases.append(make_case(forms))
     results, ndis = common.run_cases(ctx, cases, compare=common.compare_fuel)
     outcomes = {"value": 0, "none": 0, "error": 0, "timeout/abort": 0}
     distinct = set()
@@ -61,7 +66,9 @@ def explore(ctx):
         "disagreements": ndis,
         "rule": "type-directed random programs over the core forms (closures up to order 3, 0-5 parameters with and "
                 "without rest parameter, internal definitions, recursion on a decreasing counter, define sugar vs "
-                "lambda, direct call vs apply, operands wrapped in ticking calls at random), evaluated form by form "
+                "lambda, direct call vs apply, operands wrapped in ticking calls at random), plus loops (self and mutual tail "
+                "recursion under if / cond / thunks) that create a closure per round capturing parameters and internal "
+                "definitions and let it escape through a list, an argument or a vector, evaluated form by form "
                 "on one interpreter; observables per form: canonical value or error kind+location, tick trace, "
                 "stdout. non-trivial = distinct form that produced a value and contains a lambda, an apply or more "
                 "than three nested calls",
